@@ -28,6 +28,13 @@ def log(*a):
 def workdir(prop):
     d = os.path.join(TARGET, "work", f"{prop}.{os.getpid()}")
     shutil.rmtree(d, ignore_errors=True)
+    # scratch of earlier runs of the same property whose process is gone
+    base = os.path.join(TARGET, "work")
+    if os.path.isdir(base):
+        for name in os.listdir(base):
+            p, _, pid = name.rpartition(".")
+            if p == prop and pid.isdigit() and not os.path.exists(f"/proc/{pid}"):
+                shutil.rmtree(os.path.join(base, name), ignore_errors=True)
     os.makedirs(d, exist_ok=True)
     return d
 
